@@ -262,3 +262,11 @@ def oncurve(ctx):
             ctx.require(arg == ('tuple', x, y), q, 'curve test is applied to %s, but verify() uses (self.x, self.y) = (%s, %s)' % (show(arg)[:80], show(x)[:40], show(y)[:40]), fn)
             truthy = (pol is True and t[0] != 'not') or (pol is False and t[0] == 'not')
             ctx.require(truthy, q, 'key is stored on the branch where the curve test FAILS', fn)
+
+
+@PROP.obligation('C13.defaults')
+def api_defaults(ctx):
+    """Defaults of the parameters that decide this property for callers who do not pass them: deterministic RFC6979 nonces and SIGHASH_ALL are the defaults."""
+    from .common_defaults import defaults as run
+    n = run(ctx, [('keys:sign', 'use_rfc6979', 'True'), ('keys:Signature.create', 'use_rfc6979', 'True'), ('keys:sign', 'hash_type', 'SIGHASH_ALL'), ('keys:Signature.create', 'hash_type', 'SIGHASH_ALL'), ('keys:Signature.__init__', 'hash_type', 'SIGHASH_ALL')], 'signatures are no longer a deterministic function of key and message by default')
+    ctx.floor(n, 4, 'parameter defaults')
